@@ -23,6 +23,7 @@ ASSUMPTIONS = ["true distance = 1/2 max(min distortion X->Y, min distortion Y->X
                "(20 s budget per pair; timeouts are counted and make the run inconclusive above 2%)",
                "maps built by the heuristic are captured by wrapping construct_mapping from the harness (no repository change)",
                "substituted draws are injected by patching numpy.random.permutation / choice for the duration of one call"]
+REQUIRED_NOTES = ["ring-cases", "ring-cases with exact oracle"]
 TECHNIQUE = "runtime monitoring: postcondition monitor on gromov_hausdorff with an exact backtracking oracle, captured-witness recomputation, and RNG-as-scheduler substitution"
 
 MSO = [np.array([.5, 1]), np.array([0, 0]), np.array([1, 1]), np.array([0, 3]), np.array([2, 0]), np.array([-1, -1])]
@@ -136,6 +137,11 @@ def judge_witnesses(ctx, lb, ub, cap, DXo, DYo, nX, nY):
         if max(nX, nY) <= 40:
             f0, d0 = OM.improve_map(DXo, DYo, min(dirs[0])[1], rounds=2 if max(nX, nY) <= 25 else 1)
             f1, d1 = OM.improve_map(DYo, DXo, min(dirs[1])[1], rounds=2 if max(nX, nY) <= 25 else 1)
+            # plus maps that owe nothing to the heuristic: proportional / wrapped / clipped index maps, each improved locally
+            for fa in ([(i * nY) // nX for i in range(nX)], [i % nY for i in range(nX)], [min(i, nY - 1) for i in range(nX)]):
+                d0 = min(d0, OM.improve_map(DXo, DYo, fa, rounds=1)[1])
+            for fb in ([(i * nX) // nY for i in range(nY)], [i % nX for i in range(nY)], [min(i, nX - 1) for i in range(nY)]):
+                d1 = min(d1, OM.improve_map(DYo, DXo, fb, rounds=1)[1])
         else:       # local search is cubic-times-n: for the few 128+ vertex pairs use simple independent maps instead
             cands0 = [[min(i, nY - 1) for i in range(nX)], [i % nY for i in range(nX)], [(i * nY) // nX for i in range(nX)]]
             cands1 = [[min(i, nX - 1) for i in range(nY)], [i % nX for i in range(nY)], [(i * nX) // nY for i in range(nY)]]
@@ -153,7 +159,11 @@ def run_case(ctx, k, rng):
     _t0 = _time.monotonic()
     r = rng.random()
     exact_n = 8 if ctx.tier == "quick" else 9
-    if r < 0.08:
+    if k % 16 == 4:
+        mode = "rings"          # structured graphs of 9-24 vertices: cycles of different lengths, grids, ladders, caterpillars, paths -
+        #                         large radius, nearly self-centred, long-range metric relations between the two graphs
+        r = 2.0
+    elif r < 0.08:
         mode = "switch"         # a graph against a degree-preserving edge switch of itself: equal invariants, usually not isomorphic
     elif r < 0.33:
         mode = "exact"
@@ -170,7 +180,17 @@ def run_case(ctx, k, rng):
         mode = "long"           # 50-140 vertices with diameters 40-139: fills the gap between the witness sizes and 128+
     else:
         mode = "big"
-    if mode == "exact":
+    if mode == "rings":
+        def ring(rr):
+            fam = str(rr.choice(["cycle", "cycle", "cycle", "grid", "ladder", "caterpillar", "path", "lollipop"]))
+            n = int(rr.integers(9, 25))
+            G = {"cycle": lambda: OM.cycle(n), "grid": lambda: OM.grid(int(rr.integers(2, 5)), int(rr.integers(3, 7))),
+                 "ladder": lambda: OM.grid(2, max(3, n // 2)), "caterpillar": lambda: OM.caterpillar(max(4, n - 4), [1, 0, 1, 1]),
+                 "path": lambda: OM.path(n), "lollipop": lambda: OM.lollipop(int(rr.integers(3, 6)), n - 5)}[fam]()
+            return G, fam + str(len(G))
+        (A, fa), (B, fb) = ring(rng), ring(rng)
+        ctx.note("ring-cases")
+    elif mode == "exact":
         A, fa = OM.random_connected(rng, exact_n); B, fb = OM.random_connected(rng, exact_n)
     elif mode == "switch":
         n = int(rng.integers(5, 9))
@@ -254,6 +274,12 @@ def run_case(ctx, k, rng):
             true2 = OM.mgh_exact_doubled(DX, DY, timeout=20.0)
         except OM.OracleTimeout:
             ctx.note("oracle_timeout")
+    elif mode == "rings":
+        try:
+            true2 = OM.mgh_exact_doubled(DX, DY, timeout=4.0)
+            ctx.note("ring-cases with exact oracle")
+        except OM.OracleTimeout:
+            ctx.note("ring-cases without exact oracle (independent maps only)")
     elif mode == "bigdense" and len(B) <= 6:
         # exact distance for a 128+ vertex graph with few twin classes against a small graph (see oracles/mgh.twin_reduce)
         DXr, ncls = OM.twin_reduce(DX, len(B) + 1)
@@ -300,7 +326,7 @@ def run_case(ctx, k, rng):
         if mode == "iso" or fb == "big-iso":
             ctx.check("isomorphic graphs get lower bound 0", lb == 0.0, lower=lb, schedule=sname)
         judge_witnesses(ctx, lb, ub, cap, DX, DY, len(A), len(B))
-        if isinstance(s, int) and mode in ("exact", "trees", "witness") and rng.random() < 0.3:
+        if isinstance(s, int) and mode in ("exact", "trees", "witness", "rings") and rng.random() < 0.3:
             # the only randomness is the global NumPy generator: the same seed must reproduce the same pair of bounds
             try:
                 out2, _ = call(ctx, A, B, mso, s)
